@@ -175,7 +175,7 @@ inductive Res (α : Type) where
   | ok (a : α)
   | err (e : Err)
   | panic
-  deriving Repr
+  deriving Repr, DecidableEq
 
 def Res.bind {α β : Type} (r : Res α) (f : α → Res β) : Res β :=
   match r with
@@ -295,6 +295,8 @@ inductive CalcArgs where
   | cons (a : CalcArg) (as : CalcArgs)
 end
 
+deriving instance DecidableEq for CalcArg, CalcArgs
+
 def CalcArgs.toList : CalcArgs → List CalcArg
   | .nil => []
   | .cons a as => a :: as.toList
@@ -326,6 +328,7 @@ def Cfg.asFoundD1 : Cfg := ⟨false, false, false⟩
 structure Out where
   arg : CalcArg
   coerced : Bool
+  deriving DecidableEq
 
 /-- `SassCalculation::simplify` (calculation.rs:402): `calc(x)` as an argument is `x`.
     (`calc.args.remove(0)` — a `calc` value always has exactly one argument.) -/
@@ -664,9 +667,24 @@ def prArgs : CalcArgs → List Tok
     | .cons _ _ => pr a ++ (.comma :: prArgs as)
 end
 
+mutual
+/-- every `calculation` node has at least one argument (what the parser and `min`/`max`/`clamp`
+    produce; `name()` is not a calculation). -/
+def CalcArg.wf : CalcArg → Bool
+  | .calculation _ args => args.nonEmpty && args.wf
+  | .operation l _ r => l.wf && r.wf
+  | _ => true
+def CalcArgs.wf : CalcArgs → Bool
+  | .nil => true
+  | .cons a as => a.wf && as.wf
+def CalcArgs.nonEmpty : CalcArgs → Bool
+  | .nil => false
+  | .cons _ _ => true
+end
+
 /-! ### reading the printed form back: the CSS `calc()` grammar
     (the same productions as `parse_calculation_sum/product/value`, parse/value.rs:1518–1675).
-    Fuel = recursion depth budget; `parseToks` supplies `3·length + 3`, proved sufficient. -/
+    Fuel = recursion depth budget; `parseToks` supplies `4·length + 3`. -/
 
 mutual
 def pAtom : Nat → List Tok → Option (CalcArg × List Tok)
@@ -734,7 +752,7 @@ def pArgs : Nat → List Tok → Option (CalcArgs × List Tok)
     | Option.none => Option.none
 end
 
-def parseFuel (ts : List Tok) : Nat := 3 * ts.length + 3
+def parseFuel (ts : List Tok) : Nat := 4 * ts.length + 3
 
 /-- Read one printed calculation argument (the whole token list must be consumed). -/
 def parseToks (ts : List Tok) : Option CalcArg :=
